@@ -209,7 +209,9 @@ mnemo_sse_cmp = ['cmp'+predicate+suffix
 float_st_mnemo = ['fcomi','fcomip','fucomi','fucomip', 'fcmovb','fcmove','fcmovbe','fcmovu','fcmovnb','fcmovne','fcmovnbe','fcmovnu']
 float_st_st1 =   ['fucom','fucomp','fxch']
 float_arith_p =  ['faddp','fsubp','fmulp','fdivp','fsubrp','fdivrp']
-float_arith =    ['fadd','fsub','fmul','fdiv','fsubr','fdivr','fcom','fcomp']
+float_arith =    ['fadd','fsub','fmul','fdiv','fsubr','fdivr']
+# one explicit operand, compared with st(0)
+float_com =      ['fcom','fcomp']
 
 unsanity_mnemo = ['nop', 'monitor', 'mwait', 'fiadd', 'fcmovb', 'fcompp',
                   'fidivr', 'ficom', 'ficomp', 'fild', 'fist', 'fistp', 'fisttp',
@@ -219,7 +221,7 @@ unsanity_mnemo = ['nop', 'monitor', 'mwait', 'fiadd', 'fcmovb', 'fcompp',
                   'fldenv', 'fchs',
                   'ffree', 'ffreep',
                   'aad', 'aam',
-                  'jmpff'] + float_st_mnemo + float_st_st1 + float_arith_p + float_arith
+                  'jmpff'] + float_st_mnemo + float_st_st1 + float_arith_p + float_arith + float_com
 
 
 mask_drcrsg = {cr:0x100, dr:0x200, sg:0x400}
@@ -1424,9 +1426,9 @@ class x86allmncs(object):
         addop("ficomp",[0xDE],             d3,    no_rm         , {wd:(0,2)}         ,{}                , {},                         )
 
         addop("fcom",  [0xD8],             d2,    no_rm         , {sd:(0,2)}         ,{}                , {},                         )
-        addop("fcom",  [0xD8, 0xD0],       reg,   no_rm         , {}                 ,{sd:False}        , {},                         )
+        addop("fcom",  [0xD8, 0xD0],       reg,   no_rm         , {}                 ,{sd:True}         , {},                         )
         addop("fcomp", [0xD8],             d3,    no_rm         , {sd:(0,2)}         ,{}                , {},                         )
-        addop("fcomp", [0xD8, 0xD8],       reg,   no_rm         , {}                 ,{sd:False}        , {},                         )
+        addop("fcomp", [0xD8, 0xD8],       reg,   no_rm         , {}                 ,{sd:True}         , {},                         )
         addop("fcompp",[0xDE, 0xD9],       noafs, no_rm         , {}                 ,{}                , {},                         )
 
 
@@ -1913,7 +1915,7 @@ for m in x86mndb.mnemo_lookup:
             mnemo_mmx_hash[p] = m
 mnemo_mmx = [ 'pmovmskb', 'cvttpd2dq', 'movhlps', 'movlhps' ] + list(mnemo_mmx_hash.keys())
 
-mnemo_float_optional_suffix = ['fld','fst','fstp'] + float_arith + float_arith_p
+mnemo_float_optional_suffix = ['fld','fst','fstp'] + float_arith + float_com + float_arith_p
 att_mnemo_table = {
     'suffix_none': [
         'leave', 'ret', 'nop',
